@@ -106,3 +106,34 @@ def check_c04(tier, seed):
         return nscheck.finish(run, "C04")
     finally:
         run.close()
+
+
+def check_c14(tier, seed):
+    import checks_wrap
+    run = nscheck.NsRun("C14", tier, seed)
+    try:
+        run.build()
+        q = tier == "quick"
+        edges = run.generate("enum", 4 if q else 5, "enum")
+        sample_edges(run, edges)
+        for t in ("osfs", "memfs", "orefafs"):
+            run.replay(edges, t)
+        # the same enumeration calls through the wrapper file systems
+        for kind, targets in (("rofs", ("memfs",)), ("failfs", ("memfs",)), ("basepath", ("memfs",))):
+            for target in targets:
+                wedges = run.sc.path("wrap-%s-%s.ndjson" % (kind, target))
+                r = vlib.run_tlc(run.sc, "MCwrap", "MCwrap.cfg", name="wrap-%s-%s" % (kind, target), timeout=3000, heap="12g",
+                                 env={"VERIF_KIND": kind, "VERIF_BUILDLEN": 2 if kind != "basepath" else 0, "VERIF_WRAPLEN": 1,
+                                      "VERIF_EDGES": wedges, "VERIF_IMPL": target})
+                if not r["ok"]:
+                    raise vlib.Infra("wrapper specification violates its own properties (%s):\n%s" % (kind, r["out"][-3000:]))
+                run.cov["states"] += r["distinct"]
+                run.cov["transitions"] += r["generated"]
+                run.replay(wedges, target, names="a,b,B,f,s" if kind == "basepath" else "a,b")
+        run.cov["universe"] = "trees built by <=%d elementary calls (directories, files, symbolic links, Chdir) x 150 glob patterns over " \
+                              "{*,?,a,b,a*,*b,??,[ab],[^a],\\\\a,*a*} absolute and relative x WalkDir with SkipDir/SkipAll/error at every " \
+                              "visit index 1..6 x Exists/DirExists/IsDir/IsEmpty/ReadDir; repeated through RoFS, FailFS and BasePathFS" % (3 if q else 4)
+        run.cov["exhaustive"] = True
+        return nscheck.finish(run, "C14")
+    finally:
+        run.close()
